@@ -56,6 +56,11 @@ def simulation(args_dict):
     function, verb = term['function'], term['verbosity']
     dry_run = term.get('dry_run', False)
 
+    # Translate CLI names to API names.
+    gopts = cfg['simulation_options'].get('gridding_opts', {})
+    if 'cell_number' in gopts:
+        gopts['cell_numbers'] = gopts.pop('cell_number')
+
     # Start this task: start timing.
     logger = initiate_logger(cfg, runtime, verb)
 
